@@ -15,3 +15,5 @@ from contracts import ranges_init as RI
 UNITS += RI.units_range_init(shapes=[(1, 1, 1)], props=("C01", "C19"))
 from contracts import structure as ST
 UNITS += [ST.unit_no_hidden_state()]
+from props import _groups as _G
+UNITS = _G.with_groups(PROPERTY, UNITS, _G.FIELD_DECLS)
